@@ -511,6 +511,37 @@ theorem C05_gen_compress_tables :
     Gen.C05.maxDecimals = 18 ∧ Gen.C05.singleValueLength = 1 := by
   decide
 
+/-- numpy dtype name of a model dtype -/
+def npName : DType → String
+  | .i8 => "int8" | .i16 => "int16" | .i32 => "int32" | .u8 => "uint8" | .u16 => "uint16" | .u32 => "uint32" | .i64 => "int64"
+
+def packedName (bc : Nat) (u : Bool) : Option String :=
+  match packedType bc u with
+  | .ok pt => some (npName pt)
+  | .error _ => none
+
+/-- More facts of the current source that the hand-written model relies on: `TypeCode.from_dtype` substitutes exactly the
+dtypes `DType.supported` substitutes (int64 → int32, and uint64 / float16 / float128 → their 32- or 64-bit relatives);
+`_determine_packed_dtype` is `packedType`; an array gets `StringArrayEncoding` by default iff it is a string array; only the
+public `compress` has a default tolerance (1e-6) — every internal level must be handed the caller's value; every
+component class reads in `deserialize` exactly the keys its `serialize` writes; and `BinaryCIFBlock` strips the underscore
+it adds (counted occurrences of either). -/
+theorem C05_gen_source_facts :
+    Gen.C05.dtypeSubstitutions = [("int64", "int32"), ("uint64", "uint32"), ("float16", "float32"), ("float128", "float64")] ∧
+    (∀ t ∈ [DType.i8, .i16, .i32, .u8, .u16, .u32, .i64],
+      (Gen.C05.dtypeSubstitutions.lookup (npName t)).getD (npName t) = npName t.supported) ∧
+    (∀ bc ∈ [0, 1, 2, 3, 4], ∀ u ∈ [true, false],
+      (Gen.C05.packedDtypes.lookup bc).map (fun p => if u then p.1 else p.2) = packedName bc u) ∧
+    Gen.C05.packedDtypes.map (·.1) = [1, 2] ∧
+    Gen.C05.uncompressedDefault = ("str_", "StringArrayEncoding", "ByteArrayEncoding") ∧
+    Gen.C05.toleranceDefaults.filter (fun p => p.2.isSome) = [("compress", some "1e-06")] ∧
+    (∀ cls ∈ ["BinaryCIFData", "BinaryCIFColumn", "BinaryCIFCategory", "BinaryCIFBlock", "BinaryCIFFile"],
+      Gen.C05.containerKeys.lookup (cls ++ ".serialize") = Gen.C05.containerKeys.lookup (cls ++ ".deserialize") ∧
+      (Gen.C05.containerKeys.lookup (cls ++ ".serialize")).isSome) ∧
+    Gen.C05.containerKeys.lookup "BinaryCIFFile.write" = some ["biotite", "encoder", "version"] ∧
+    Gen.C05.blockPrefixAdded = 5 ∧ Gen.C05.blockPrefixStripped = 2 := by
+  decide +kernel
+
 /-- Every chain the regenerated loops enumerate decodes to what it encoded (instance of `C05_compress_candidates_sound`). -/
 theorem C05_gen_candidates_sound (d r : Bool) (p : Option Nat)
     (_hd : d ∈ Gen.C05.deltaDomain) (_hr : r ∈ Gen.C05.rleDomain) (_hp : p ∈ Gen.C05.packDomain)
